@@ -35,4 +35,11 @@ DirectiveInstances(maxDeviations) ==
 (* as a concatenation that only exists after reduction, or as bytes.                                      *)
 MetadataTextCases == {[prefix |-> k, width |-> w, tail |-> t, form |-> f] :
                          k \in 58..66, w \in 1..4, t \in {0, 5}, f \in {"string", "concat", "bytes"}}
+
+(* Asset literals of an IR a client may send: one of policy / name / amount holds a constant of another     *)
+(* kind, and the literal stands alone or under one of the operations that fold asset lists.                *)
+AssetLiteralCases == {[op |-> o, field |-> f, kind |-> k] :
+                         o \in {"alone", "add_left", "add_right", "sub_left", "sub_right", "negate", "into_assets"},
+                         f \in {"policy", "name", "amount"},
+                         k \in {"bool", "bytes3", "string", "list", "none", "struct", "number", "negative", "address"}}
 =============================================================================
